@@ -161,6 +161,47 @@ func (v V) Go() any {
 	panic("bad V kind " + v.K)
 }
 
+// VOfGo reads back an input value handed to a callback (object keys sorted: canonical form).
+func VOfGo(x any) V {
+	switch t := x.(type) {
+	case nil:
+		return VNil()
+	case string:
+		return VStr(t)
+	case int:
+		return V{K: "i", IK: "int", I: int64(t)}
+	case int64:
+		return V{K: "i", IK: "i64", I: t}
+	case int32:
+		return V{K: "i", IK: "i32", I: int64(t)}
+	case int8:
+		return V{K: "i", IK: "other", I: int64(t)}
+	case bool:
+		return VBool(t)
+	case float64:
+		return VF64(t)
+	case float32:
+		return V{K: "f32", F: float64(t)}
+	case time.Time:
+		return VTime(t)
+	case []any:
+		out := V{K: "l"}
+		for _, e := range t {
+			out.L = append(out.L, VOfGo(e))
+		}
+		return out
+	case map[string]any:
+		out := V{K: "o"}
+		for _, k := range sortedKeys(t) {
+			out.O = append(out.O, KV{k, VOfGo(t[k])})
+		}
+		return out
+	case unsupported:
+		return V{K: "x", Desc: "chan"}
+	}
+	return V{K: "x", Desc: "unknown"}
+}
+
 // ---------- destination values ----------
 
 type D struct {
@@ -286,6 +327,8 @@ var timeType = reflect.TypeOf(time.Time{})
 // GoType of the destination for a schema node.
 func (n *Node) GoType() reflect.Type {
 	switch n.Kind {
+	case "pre":
+		return n.Elem.GoType()
 	case "prim":
 		switch n.PK {
 		case "str":
@@ -334,6 +377,8 @@ func (n *Node) GoType() reflect.Type {
 // DOf reads a destination value (schema-directed, so that Custom destinations are labelled).
 func DOf(n *Node, rv reflect.Value) D {
 	switch n.Kind {
+	case "pre":
+		return DOf(n.Elem, rv)
 	case "prim":
 		return dOfPlain(rv)
 	case "slice":
@@ -395,6 +440,9 @@ func dOfPlain(rv reflect.Value) D {
 
 // SetD writes a D literal into a destination.
 func SetD(n *Node, rv reflect.Value, d D) {
+	for n != nil && n.Kind == "pre" {
+		n = n.Elem
+	}
 	switch d.K {
 	case "s":
 		rv.SetString(d.S)
